@@ -12,12 +12,18 @@ using vh::split;
 struct Obj {
   std::unique_ptr<update_theta_sketch> upd;
   std::unique_ptr<compact_theta_sketch> cmp;
+  std::unique_ptr<wrapped_compact_theta_sketch> wrp;   // read-only view over `bytes`
+  std::shared_ptr<std::vector<uint8_t>> bytes;
+  std::unique_ptr<theta_union> uni;
+  std::unique_ptr<theta_intersection> inter;
+  bool is_sketch() const { return upd || cmp || wrp; }
   const theta_sketch& sk() const { return upd ? static_cast<const theta_sketch&>(*upd) : static_cast<const theta_sketch&>(*cmp); }
 };
 
 static std::map<int, Obj> objs;
 
-static std::string observe(const theta_sketch& s) {
+template<typename S>
+static std::string observe(const S& s) {
   std::ostringstream os;
   std::vector<uint64_t> ks;
   for (auto h : s) ks.push_back(h);
@@ -27,6 +33,20 @@ static std::string observe(const theta_sketch& s) {
   if (ks.size() <= 4096) { for (auto k : ks) os << " " << k; }
   else os << " fold " << vh::hex_u64(vh::fold64(ks));
   return os.str();
+}
+
+static std::string observe_obj(const Obj& o) {
+  if (o.wrp) return observe(*o.wrp);
+  return observe(o.sk());
+}
+
+// apply f to the operand in whatever physical form it has
+template<typename F>
+static auto with_operand(const Obj& o, F f) {
+  if (o.upd) return f(*o.upd);
+  if (o.cmp) return f(*o.cmp);
+  if (o.wrp) return f(*o.wrp);
+  throw std::logic_error("not a sketch");
 }
 
 template<typename S>
@@ -58,29 +78,123 @@ static std::string step(const std::vector<std::string>& w) {
     return observe(objs[id].sk());
   }
   if (op == "upd") {
-    Obj& o = objs.at(atoi(w[1].c_str()));
+    Obj& o = vh::at(objs, atoi(w[1].c_str()));
     do_update(*o.upd, w[2], w[3]);
     return observe(o.sk());
   }
-  if (op == "trim") { Obj& o = objs.at(atoi(w[1].c_str())); o.upd->trim(); return observe(o.sk()); }
-  if (op == "reset") { Obj& o = objs.at(atoi(w[1].c_str())); o.upd->reset(); return observe(o.sk()); }
+  if (op == "trim") { Obj& o = vh::at(objs, atoi(w[1].c_str())); o.upd->trim(); return observe(o.sk()); }
+  if (op == "reset") { Obj& o = vh::at(objs, atoi(w[1].c_str())); o.upd->reset(); return observe(o.sk()); }
   if (op == "copy") {
-    Obj& o = objs.at(atoi(w[1].c_str()));
+    Obj& o = vh::at(objs, atoi(w[1].c_str()));
     Obj n;
-    if (o.upd) n.upd.reset(new update_theta_sketch(*o.upd)); else n.cmp.reset(new compact_theta_sketch(*o.cmp));
+    if (o.upd) n.upd.reset(new update_theta_sketch(*o.upd));
+    else if (o.wrp) n.cmp.reset(new compact_theta_sketch(*o.wrp, o.wrp->is_ordered()));
+    else n.cmp.reset(new compact_theta_sketch(*o.cmp));
     int nid = atoi(w[2].c_str());
     objs[nid] = std::move(n);
     return observe(objs[nid].sk());
   }
   if (op == "compact") {
-    Obj& o = objs.at(atoi(w[1].c_str()));
+    Obj& o = vh::at(objs, atoi(w[1].c_str()));
     bool ord = w[3] == "1";
     Obj n;
     if (o.upd) n.cmp.reset(new compact_theta_sketch(o.upd->compact(ord)));
+    else if (o.wrp) n.cmp.reset(new compact_theta_sketch(*o.wrp, ord));
     else n.cmp.reset(new compact_theta_sketch(*o.cmp, ord));
     int nid = atoi(w[2].c_str());
     objs[nid] = std::move(n);
     return observe(objs[nid].sk());
+  }
+  if (op == "ser") {   // serialize a compact sketch and re-create it: deser | wrap | deserc | wrapc (c = compressed image)
+    Obj& o = vh::at(objs, atoi(w[1].c_str()));
+    if (!o.cmp) return "bad-op";
+    const std::string& kind = w[3];
+    bool compressed = kind == "deserc" || kind == "wrapc";
+    uint64_t seed = w.size() > 4 ? strtoull(w[4].c_str(), nullptr, 10) : DEFAULT_SEED;
+    auto bytes = compressed ? o.cmp->serialize_compressed() : o.cmp->serialize();
+    Obj n;
+    if (kind == "deser" || kind == "deserc") {
+      n.cmp.reset(new compact_theta_sketch(compact_theta_sketch::deserialize(bytes.data(), bytes.size(), seed)));
+    } else {
+      n.bytes = std::make_shared<std::vector<uint8_t>>(bytes.begin(), bytes.end());
+      n.wrp.reset(new wrapped_compact_theta_sketch(wrapped_compact_theta_sketch::wrap(n.bytes->data(), n.bytes->size(), seed)));
+    }
+    int nid = atoi(w[2].c_str());
+    objs[nid] = std::move(n);
+    return observe_obj(objs[nid]);
+  }
+  if (op == "unew") {
+    auto b = theta_union::builder();
+    b.set_lg_k((uint8_t)atoi(w[2].c_str())).set_resize_factor((resize_factor)atoi(w[3].c_str()))
+     .set_p(vh::f32_of_hex(w[4])).set_seed(strtoull(w[5].c_str(), nullptr, 10));
+    Obj o; o.uni.reset(new theta_union(b.build()));
+    objs[atoi(w[1].c_str())] = std::move(o);
+    return "ok";
+  }
+  if (op == "uupd") {
+    Obj& u = vh::at(objs, atoi(w[1].c_str()));
+    const Obj& s = vh::at(objs, atoi(w[2].c_str()));
+    bool mv = w.size() > 3 && w[3] == "mv";
+    if (mv && s.cmp) { compact_theta_sketch tmp(*s.cmp); u.uni->update(std::move(tmp)); }
+    else if (mv && s.upd) { update_theta_sketch tmp(*s.upd); u.uni->update(std::move(tmp)); }
+    else with_operand(s, [&](const auto& sk) { u.uni->update(sk); return 0; });
+    return "ok";
+  }
+  if (op == "ures") {
+    Obj& u = vh::at(objs, atoi(w[1].c_str()));
+    Obj n; n.cmp.reset(new compact_theta_sketch(u.uni->get_result(w[3] == "1")));
+    int nid = atoi(w[2].c_str());
+    objs[nid] = std::move(n);
+    return observe_obj(objs[nid]);
+  }
+  if (op == "ureset") { vh::at(objs, atoi(w[1].c_str())).uni->reset(); return "ok"; }
+  if (op == "inew") {
+    Obj o; o.inter.reset(new theta_intersection(strtoull(w[2].c_str(), nullptr, 10)));
+    objs[atoi(w[1].c_str())] = std::move(o);
+    return "ok";
+  }
+  if (op == "iupd") {
+    Obj& i = vh::at(objs, atoi(w[1].c_str()));
+    const Obj& s = vh::at(objs, atoi(w[2].c_str()));
+    bool mv = w.size() > 3 && w[3] == "mv";
+    if (mv && s.cmp) { compact_theta_sketch tmp(*s.cmp); i.inter->update(std::move(tmp)); }
+    else with_operand(s, [&](const auto& sk) { i.inter->update(sk); return 0; });
+    return "ok";
+  }
+  if (op == "ires") {
+    Obj& i = vh::at(objs, atoi(w[1].c_str()));
+    Obj n; n.cmp.reset(new compact_theta_sketch(i.inter->get_result(w[3] == "1")));
+    int nid = atoi(w[2].c_str());
+    objs[nid] = std::move(n);
+    return observe_obj(objs[nid]);
+  }
+  if (op == "ihas") { return std::string("has ") + (vh::at(objs, atoi(w[1].c_str())).inter->has_result() ? "1" : "0"); }
+  if (op == "anotb") {
+    const Obj& a = vh::at(objs, atoi(w[1].c_str()));
+    const Obj& b = vh::at(objs, atoi(w[2].c_str()));
+    theta_a_not_b anb(strtoull(w[5].c_str(), nullptr, 10));
+    bool ord = w[4] == "1";
+    Obj n;
+    with_operand(a, [&](const auto& sa) { return with_operand(b, [&](const auto& sb) {
+      n.cmp.reset(new compact_theta_sketch(anb.compute(sa, sb, ord))); return 0; }); });
+    int nid = atoi(w[3].c_str());
+    objs[nid] = std::move(n);
+    return observe_obj(objs[nid]);
+  }
+  if (op == "jac") {
+    const Obj& a = vh::at(objs, atoi(w[1].c_str()));
+    const Obj& b = vh::at(objs, atoi(w[2].c_str()));
+    uint64_t seed = strtoull(w[3].c_str(), nullptr, 10);
+    std::array<double, 3> j{};
+    bool exact = false;
+    with_operand(a, [&](const auto& sa) { return with_operand(b, [&](const auto& sb) {
+      j = theta_jaccard_similarity::jaccard(sa, sb, seed);
+      exact = !sa.is_estimation_mode() && !sb.is_estimation_mode();
+      return 0; }); });
+    // bounds are compared with the model only where the model can compute them (exact mode, the trivial cases, or est = 0.5 fallback)
+    bool trivial = (j[0] == j[1] && j[1] == j[2]) || (j[0] == 0.0 && j[1] == 0.5 && j[2] == 1.0);
+    if (exact || trivial) return "J " + vh::hex_f64(j[0]) + " " + vh::hex_f64(j[1]) + " " + vh::hex_f64(j[2]);
+    return "Jest " + vh::hex_f64(j[1]);
   }
   return "bad-op";
 }
